@@ -78,9 +78,63 @@ def _rat(node, leaves):
     if isinstance(node, ast.BinOp) and isinstance(node.op, ast.Mult):
         (a, b), (c, d) = _rat(node.left, leaves), _rat(node.right, leaves)
         return f"({a} * {c})", f"({b} * {d})"
+    if isinstance(node, ast.BinOp) and isinstance(node.op, (ast.Add, ast.Sub)):
+        (a, b), (c, d) = _rat(node.left, leaves), _rat(node.right, leaves)
+        op = "+" if isinstance(node.op, ast.Add) else "-"
+        return f"({a} * {d} {op} {c} * {b})", f"({b} * {d})"
+    if isinstance(node, ast.Constant) and isinstance(node.value, int) and not isinstance(node.value, bool):
+        return f"({node.value} : Int)", "(1 : Int)"
     if isinstance(node, ast.Call) and isinstance(node.func, ast.Name) and node.func.id in ("int", "float") and len(node.args) == 1:
         return _rat(node.args[0], leaves)
     raise Untranslatable(f"rational expression `{ast.unparse(node)}`")
+
+
+def _rat_cmp(node, leaves) -> str:
+    """comparison of two fractions with positive denominators"""
+    if not (isinstance(node, ast.Compare) and len(node.ops) == 1):
+        raise Untranslatable(f"comparison `{ast.unparse(node)}`")
+    (a, b), (c, d) = _rat(node.left, leaves), _rat(node.comparators[0], leaves)
+    sym = {ast.LtE: "≤", ast.Lt: "<", ast.GtE: "≥", ast.Gt: ">"}.get(type(node.ops[0]))
+    if sym is None:
+        raise Untranslatable(f"comparison operator in `{ast.unparse(node)}`")
+    return f"(decide ({a} * {d} {sym} {c} * {b}))"
+
+
+def _half_diag() -> str:
+    fn = find_function(parse_file(REPO / SSL), "MaskSplitter._half_split")
+    asg = {ast.unparse(st.targets[0]): _txt(st.value) for st in all_stmts(fn)
+           if isinstance(st, ast.Assign) and len(st.targets) == 1 and ast.unparse(st.targets[0]) in ("x", "y", "(xv, yv)", "xv, yv")}
+    if asg.get("x") != "torch.linspace(-1,1,nrow)" or asg.get("y") != "torch.linspace(-1,1,ncol)":
+        raise Untranslatable(f"coordinates are {asg.get('x')}, {asg.get('y')}")
+    if (asg.get("(xv, yv)") or asg.get("xv, yv")) != "torch.meshgrid(x,y,indexing='ij')":
+        raise Untranslatable("meshgrid(x, y, indexing='ij') not found")
+    # the `if direction == DIAGONAL_RIGHT: … else: …` with four `mask * (<cmp>)` assignments
+    node = None
+    for st in all_stmts(fn):
+        if isinstance(st, ast.If) and _txt(st.test) == "direction==HalfSplitType.DIAGONAL_RIGHT":
+            node = st
+    if node is None:
+        raise Untranslatable("`if direction == HalfSplitType.DIAGONAL_RIGHT` not found")
+    leaves = {"xv": ("xn", "xd"), "yv": ("yn", "yd")}
+    out = []
+    for branch, stmts in (("right", node.body), ("left", node.orelse)):
+        got = {}
+        for st in stmts:
+            if (isinstance(st, ast.Assign) and isinstance(st.value, ast.BinOp) and isinstance(st.value.op, ast.Mult)
+                    and ast.unparse(st.value.left) == "mask"):
+                got[ast.unparse(st.targets[0])] = st.value.right
+        if set(got) != {"input_mask", "target_mask"} or len(stmts) != 2:
+            raise Untranslatable(f"diagonal branch `{branch}` is not two `mask * (<comparison>)` assignments")
+        for which in ("input", "target"):
+            out.append(f"def half_diag_{branch}_{which} (xn xd yn yd : Int) : Bool := {_rat_cmp(got[which + '_mask'], leaves)}\n")
+    return "/-- translated from `_half_split`: the diagonal predicates on the exact fractions xv = xn/xd, yv = yn/yd -/\n" + "".join(out)
+
+
+_HALF_DIAG_FALLBACK = (
+    "def half_diag_right_input (xn xd yn yd : Int) : Bool := decide (xn * yd + yn * xd ≤ 0)\n"
+    "def half_diag_right_target (xn xd yn yd : Int) : Bool := !decide (xn * yd + yn * xd ≤ 0)\n"
+    "def half_diag_left_input (xn xd yn yd : Int) : Bool := decide (xn * yd - yn * xd ≤ 0)\n"
+    "def half_diag_left_target (xn xd yn yd : Int) : Bool := !decide (xn * yd - yn * xd ≤ 0)\n")
 
 
 def _count_build(target: str, leaves: dict):
@@ -408,16 +462,17 @@ def _seeds(tree) -> str:
     tr = ExprTr({}, {"self.use_seed": "use_seed"})
     none_when = tr.bool(hits[0].test)
     g = find_function(tree, "MaskSplitter._gaussian_split")
-    mean = [st for st in all_stmts(g) if isinstance(st, ast.Assign) and ast.unparse(st.targets[0]) == "seed"
-            and _txt(st.value) == "int(np.mean(seed))"]
-    if len(mean) != 1:
+    red = [st for st in all_stmts(g) if isinstance(st, ast.Assign) and ast.unparse(st.targets[0]) == "seed"
+           and _txt(st.value) in ("int(np.mean(seed))", "int(np.sum(seed))", "int(sum(seed))")]
+    if len(red) != 1:
         raise Untranslatable("`seed = int(np.mean(seed))` not found")
+    body = ("Int.fdiv (t.sum : Int) (t.length : Int)" if "mean" in _txt(red[0].value) else "(t.sum : Int)")
     return (
         "/-- translated from `MaskSplitter.forward`: code points of `str(filename) + str(slice_no)` -/\n"
         "def seed_tuple (filename slice : List Nat) : List Nat := filename ++ slice\n"
         f"def seed_is_none (use_seed : Bool) : Bool := {none_when}\n"
         "/-- translated from `_gaussian_split`: `int(np.mean(seed))` (truncated mean of non-negative code points) -/\n"
-        "def gaussian_seed (t : List Nat) : Int := Int.fdiv (t.sum : Int) (t.length : Int)\n"
+        f"def gaussian_seed (t : List Nat) : Int := {body}\n"
     )
 
 
@@ -469,6 +524,7 @@ def _c11_extra():
     attempt("draws_in_temp_seed", draws,
             'def draws_in_temp_seed : List (String × Bool) := [("gaussian:self._choose_ratio", true), '
             '("uniform:self._choose_ratio", true), ("uniform:uniform_fill", true)]\n')
+    attempt("half_diagonals", _half_diag, _HALF_DIAG_FALLBACK)
     attempt("seeds", lambda: _seeds(tree if tree is not None else need("x")), _SEED_FALLBACK)
     return "\n".join(chunks), status
 
